@@ -369,3 +369,10 @@ def fx_clear(fx):
     n1 = parallel.clear_completeness(c1, fx, "src/lib.rs", "locksplit::Slots")
     n2 = parallel.clear_completeness(c2, fx, "src/lib.rs", "locksplit::BadSlots")
     return n1 == 2 and not c1.violations and n2 == 2 and len(c2.violations) == 1
+
+
+def fx_tailmask(fx):
+    from rules import tailmask
+    c = _ctx()
+    n = tailmask.run(c, fx, ["src/lib.rs"])
+    return n >= 3 and _fires(c, "tailmask::bad_count") and not _fires(c, "tailmask::ok_count") and not _fires(c, "tailmask::ok_rank")
